@@ -178,7 +178,7 @@ C09_ORIGIN = [0]
 
 class C09WeightAlgorithm:
     """Stub weighting algorithm of the online ensemble: fixed dyadic weights; logs what it is shown."""
-    W = {1: [1.0], 2: [0.25, 0.75], 3: [0.25, 0.25, 0.5]}
+    W = {1: [0.5], 2: [0.25, 0.5], 3: [0.5, 0.25, 0.125]}        # dyadic, not summing to one
 
     def __init__(self, n):
         self.weights = np.array(self.W[n])
